@@ -103,16 +103,16 @@ Up(s, q, full) ==
   ELSE IF ~KindOK(full, "uset", q.vih, s.nv, lv, LAMBDA v : E(s.vbu, MapSeq(Opp, SortedSeq(OutDef(s, v))))) THEN "vih"
   ELSE IF ~KindOK(full, "bag", q.vv, s.nv, lv, LAMBDA v : E(s.vbu, VVBag(s, v))) THEN "vv"
   ELSE IF ~KindOK(full, "bag", q.ve, s.nv, lv, LAMBDA v : E(s.vbu, VEBag(s, v))) THEN "ve"
-  ELSE IF ~KindOK(full, "set", q.vhf, s.nv, lv, LAMBDA v : E(s.vbu /\ s.ebu, SortedSeq(VHFSet(s, v)))) THEN "vhf"
-  ELSE IF ~KindOK(full, "set", q.vf, s.nv, lv, LAMBDA v : E(all3, SortedSeq(VFSet(s, v)))) THEN "vf"
-  ELSE IF ~KindOK(full, "set", q.vc, s.nv, lv, LAMBDA v : E(all3, SortedSeq(VCSet(s, v)))) THEN "vc"
+  ELSE IF ~KindOK(full, "uset", q.vhf, s.nv, lv, LAMBDA v : E(s.vbu /\ s.ebu, SortedSeq(VHFSet(s, v)))) THEN "vhf"
+  ELSE IF ~KindOK(full, "uset", q.vf, s.nv, lv, LAMBDA v : E(all3, SortedSeq(VFSet(s, v)))) THEN "vf"
+  ELSE IF ~KindOK(full, "uset", q.vc, s.nv, lv, LAMBDA v : E(all3, SortedSeq(VCSet(s, v)))) THEN "vc"
   ELSE IF ~KindOK(full, "bag", q.hehf, NHE(s), lhe, LAMBDA h : E(s.ebu, HFBag(s, h))) THEN "hehf"
-  ELSE IF ~KindOK(full, "set", q.hef, NHE(s), lhe, LAMBDA h : E(s.ebu, SortedSeq(HEFSet(s, h)))) THEN "hef"
+  ELSE IF ~KindOK(full, "uset", q.hef, NHE(s), lhe, LAMBDA h : E(s.ebu, SortedSeq(HEFSet(s, h)))) THEN "hef"
   ELSE IF ~KindOK(full, "uset", q.hec, NHE(s), lhe, LAMBDA h : E(s.ebu /\ s.fbu, SortedSeq(HECSet(s, h)))) THEN "hec"
   ELSE IF ~KindOK(full, "bag", q.ehf, Len(s.edges), le, LAMBDA e : E(s.ebu, EHFBag(s, e))) THEN "ehf"
-  ELSE IF ~KindOK(full, "set", q.ef, Len(s.edges), le, LAMBDA e : E(s.ebu, SortedSeq(HEFSet(s, 2 * e)))) THEN "ef"
+  ELSE IF ~KindOK(full, "uset", q.ef, Len(s.edges), le, LAMBDA e : E(s.ebu, SortedSeq(HEFSet(s, 2 * e)))) THEN "ef"
   ELSE IF ~KindOK(full, "uset", q.ec, Len(s.edges), le, LAMBDA e : E(s.ebu /\ s.fbu, SortedSeq(HECSet(s, 2 * e)))) THEN "ec"
-  ELSE IF ~KindOK(full, "set", q.cc, Len(s.cells), lc, LAMBDA c : E(s.fbu, SortedSeq(CCSet(s, c)))) THEN "cc"
+  ELSE IF ~KindOK(full, "uset", q.cc, Len(s.cells), lc, LAMBDA c : E(s.fbu, SortedSeq(CCSet(s, c)))) THEN "cc"
   ELSE ""
 
 Tri(b) == IF b THEN 1 ELSE 0
@@ -126,7 +126,8 @@ Scalars(s, q) ==
       lf(f) == ~At(s.fdel, f)
       lhf(h) == ~At(s.fdel, Full(h))
       lc(c) == ~At(s.cdel, c)
-      BL(can, S, P(_)) == IF can THEN SortedSeq({x \in S : P(x)}) ELSE <<>>
+      BL(can, S, P(_)) == IF can THEN {x \in S : P(x)} ELSE {}
+      IsB(w, S) == NoDup(w) /\ Rng(w) = S
   IN
   IF q.valv # Arr(s.nv, s.vbu, lv, LAMBDA v : ValV(s, v)) THEN "valence(v)"
   ELSE IF q.vale # Arr(Len(s.edges), s.ebu, le, LAMBDA e : ValE(s, e)) THEN "valence(e)"
@@ -136,12 +137,12 @@ Scalars(s, q) ==
   ELSE IF q.bnde # Arr(Len(s.edges), ef, le, LAMBDA e : Tri(BndE(s, e))) THEN "is_boundary(e)"
   ELSE IF q.bndv # Arr(s.nv, all3, lv, LAMBDA v : Tri(BndV(s, v))) THEN "is_boundary(v)"
   ELSE IF q.bndc # Arr(Len(s.cells), s.fbu, lc, LAMBDA c : Tri(BndC(s, c))) THEN "is_boundary(c)"
-  ELSE IF q.bv # BL(all3, LiveV(s), LAMBDA v : BndV(s, v)) THEN "bv_iter"
-  ELSE IF q.bhe # BL(ef, LiveHE(s), LAMBDA h : BndHE(s, h)) THEN "bhe_iter"
-  ELSE IF q.be # BL(ef, LiveE(s), LAMBDA e : BndE(s, e)) THEN "be_iter"
-  ELSE IF q.bhf # BL(s.fbu, LiveHF(s), LAMBDA h : BndHF(s, h)) THEN "bhf_iter"
-  ELSE IF q.bf # BL(s.fbu, LiveF(s), LAMBDA f : BndF(s, f)) THEN "bf_iter"
-  ELSE IF q.bc # BL(s.fbu, LiveC(s), LAMBDA c : BndC(s, c)) THEN "bc_iter"
+  ELSE IF ~IsB(q.bv, BL(all3, LiveV(s), LAMBDA v : BndV(s, v))) THEN "bv_iter"
+  ELSE IF ~IsB(q.bhe, BL(ef, LiveHE(s), LAMBDA h : BndHE(s, h))) THEN "bhe_iter"
+  ELSE IF ~IsB(q.be, BL(ef, LiveE(s), LAMBDA e : BndE(s, e))) THEN "be_iter"
+  ELSE IF ~IsB(q.bhf, BL(s.fbu, LiveHF(s), LAMBDA h : BndHF(s, h))) THEN "bhf_iter"
+  ELSE IF ~IsB(q.bf, BL(s.fbu, LiveF(s), LAMBDA f : BndF(s, f))) THEN "bf_iter"
+  ELSE IF ~IsB(q.bc, BL(s.fbu, LiveC(s), LAMBDA c : BndC(s, c))) THEN "bc_iter"
   ELSE IF \E f \in LiveF(s) : s.fbu /\
             At(q.fcells, f) # <<(IF CellsOfHF(s, 2 * f) = {} THEN -1 ELSE CHOOSE c \in CellsOfHF(s, 2 * f) : TRUE),
                                 (IF CellsOfHF(s, 2 * f + 1) = {} THEN -1 ELSE CHOOSE c \in CellsOfHF(s, 2 * f + 1) : TRUE)>>
@@ -162,11 +163,11 @@ Down(s, q) ==
   ELSE IF ~KindOK(TRUE, "seq", q.fv, Len(s.faces), lf, LAMBDA f : MapSeq(LAMBDA x : From(s, x), At(s.faces, f))) THEN "fv"
   ELSE IF ~KindOK(TRUE, "seq", q.fhe, Len(s.faces), lf, LAMBDA f : At(s.faces, f)) THEN "fhe"
   ELSE IF ~KindOK(TRUE, "seq", q.fe, Len(s.faces), lf, LAMBDA f : MapSeq(Full, At(s.faces, f))) THEN "fe"
-  ELSE IF ~KindOK(TRUE, "set", q.cv, Len(s.cells), lc, LAMBDA c : SortedSeq(CellVerts(s, c))) THEN "cv"
-  ELSE IF ~KindOK(TRUE, "seq", q.che, Len(s.cells), lc, LAMBDA c : CHESeq(s, c)) THEN "che"
-  ELSE IF ~KindOK(TRUE, "set", q.ce, Len(s.cells), lc, LAMBDA c : SortedSeq({Full(h) : h \in Rng(CHESeq(s, c))})) THEN "ce"
-  ELSE IF ~KindOK(TRUE, "seq", q.chf, Len(s.cells), lc, LAMBDA c : At(s.cells, c)) THEN "chf"
-  ELSE IF ~KindOK(TRUE, "seq", q.cf, Len(s.cells), lc, LAMBDA c : MapSeq(Full, At(s.cells, c))) THEN "cf"
+  ELSE IF ~KindOK(TRUE, "uset", q.cv, Len(s.cells), lc, LAMBDA c : SortedSeq(CellVerts(s, c))) THEN "cv"
+  ELSE IF ~KindOK(TRUE, "bag", q.che, Len(s.cells), lc, LAMBDA c : CHESeq(s, c)) THEN "che"
+  ELSE IF ~KindOK(TRUE, "uset", q.ce, Len(s.cells), lc, LAMBDA c : SortedSeq({Full(h) : h \in Rng(CHESeq(s, c))})) THEN "ce"
+  ELSE IF ~KindOK(TRUE, "bag", q.chf, Len(s.cells), lc, LAMBDA c : At(s.cells, c)) THEN "chf"
+  ELSE IF ~KindOK(TRUE, "bag", q.cf, Len(s.cells), lc, LAMBDA c : MapSeq(Full, At(s.cells, c))) THEN "cf"
   ELSE IF ~KindOK(TRUE, "bag", q.bhfhf, NHF(s), bh, LAMBDA h : IF s.ebu THEN BHFHFBag(s, h) ELSE <<>>) THEN "bhfhf"
   ELSE IF ~EntityIterOK(q.itv, LiveV(s)) THEN "vertices()"
   ELSE IF ~EntityIterOK(q.ite, LiveE(s)) THEN "edges()"
